@@ -356,3 +356,24 @@ func OsReadFile(name string) ([]byte, error) {
 func OsIsNotExist(err error) bool { _, ok := err.(errNotExist); return ok }
 func OsHostname() (string, error) { return "verif-host", nil }
 func OsGetpid() int               { return 4242 }
+
+// GTIDString is the injective text encoding of a GTID bit-set: "" for the empty
+// set, "g<hex>" otherwise (symbolically: an opaque token supporting equality only).
+func GTIDString(bits uint64) string {
+	if bits == 0 {
+		return ""
+	}
+	return fmt.Sprintf("g%x", bits)
+}
+
+// GTIDBits is the inverse of GTIDString.
+func GTIDBits(s string) uint64 {
+	if s == "" {
+		return 0
+	}
+	var u uint64
+	if _, err := fmt.Sscanf(s, "g%x", &u); err != nil {
+		panic("verifnd.GTIDBits: not a GTID token: " + s)
+	}
+	return u
+}
